@@ -1,7 +1,7 @@
 (** C07 - integer text and byte encodings round-trip and match the reference digits.
     ONLY statements pinned here; proofs live in Dashu.Int.Io*. *)
 From Dashu Require Import Base.Prelude Base.Words Int.IoSpec Int.IoModel Int.IoDigits Int.IoPrint Int.IoParse
-  Int.IoRadix Int.IoLayout Int.IoBytes Int.IoRound Int.IoPow2 Int.IoTop Int.IoChunks Int.IoBytesAsIs Int.IoWords Int.IoTablesProof Int.IoSwar.
+  Int.IoRadix Int.IoLayout Int.IoBytes Int.IoRound Int.IoPow2 Int.IoTop Int.IoChunks Int.IoBytesAsIs Int.IoWords Int.IoTablesProof Int.IoSwar Int.IoPowers Int.IoBytesBEModel Int.IoBytesBE Int.IoDword.
 From DashuGen Require Import Params IoTables.
 Open Scope Z_scope.
 
@@ -264,3 +264,67 @@ Theorem C07_swar_chunk_no_letters : forall n ds, length ds = n -> Forall (fun d 
   swar_chunk n 0 ds = map (digit_char false) ds.
 Proof. exact swar_chunk_no_letters. Qed.
 Print Assumptions C07_swar_chunk_no_letters.
+
+(** PreparedLarge::new: the cached powers (largest first) are successive squares down to range_per_word^CHUNK_LEN; the
+    word-count shortcut of the squaring loop never stops too early and the model's fuel never runs out, so the
+    largest power p satisfies p <= x < p*p; the quotient left after the division cascade is below
+    range_per_word^CHUNK_LEN: the top chunk fits the CHUNK_LEN-word buffer of PreparedMedium *)
+Theorem C07_printer_power_table : forall w, 0 < w -> forall R x, 2 <= R -> R ^ fmt_chunk_len <= x ->
+  let ps := fmt_powers w (Z.to_nat (blen x)) x [R ^ fmt_chunk_len] in
+  squares_chain ps /\ last ps 0 = R ^ fmt_chunk_len /\
+  (match ps with p :: _ => p <= x < p * p | [] => False end) /\
+  0 <= cascade_top ps true x < R ^ fmt_chunk_len.
+Proof. exact prepared_large_table. Qed.
+Print Assumptions C07_printer_power_table.
+
+Theorem C07_printer_top_chunk : forall w r ps first x tail,
+  exists tail', large_split w r ps first x tail = prepared_medium w r (cascade_top ps first x) ++ tail'.
+Proof. exact large_split_top. Qed.
+Print Assumptions C07_printer_top_chunk.
+
+(** parse_large / parse_large_divide_conquer / parse_chunk with every debug_assert! as a panic: the table built by the
+    squaring loop covers the text, and the assertion holds at the entry and at every recursive call - for texts of
+    every length the asserting model is the model *)
+Theorem C07_parser_asserts_hold : forall w r s,
+  let '(dpw, R) := radix_info w r in
+  0 < dpw ->
+  let cb := parse_chunk_len * dpw in
+  let ps := parse_powers (Z.to_nat (blen (len s))) cb (len s) [R ^ parse_chunk_len] in
+  len s <= cb * 2 ^ len ps /\ parse_dc_dbg w r cb ps s = parse_large_np2 w r s.
+Proof. exact parse_large_asserts_hold. Qed.
+Print Assumptions C07_parser_asserts_hold.
+
+(** convert.rs big-endian functions as their own models (words_to_be_bytes_skip: top word first, skipped bytes cut from
+    the front, the other words in reverse order; sign byte inserted at index 0; from_be_*: padding in front):
+    they produce / decode the specification encoding read backwards, and are mutually inverse on all integers *)
+Theorem C07_to_be_bytes_asis : forall w m, 0 < w -> w mod 8 = 0 -> 0 <= m -> to_be_bytes_asis w m = rev (to_le_bytes_spec m).
+Proof. exact to_be_bytes_asis_correct. Qed.
+Print Assumptions C07_to_be_bytes_asis.
+
+Theorem C07_to_signed_be_bytes_asis : forall w v, 0 < w -> w mod 8 = 0 ->
+  to_signed_be_bytes_asis w v = rev (to_signed_le_bytes_spec v).
+Proof. exact to_signed_be_bytes_asis_correct. Qed.
+Print Assumptions C07_to_signed_be_bytes_asis.
+
+Theorem C07_from_be_bytes_asis : forall w bs, 0 <= w -> from_be_bytes_asis w bs = be_value bs.
+Proof. exact from_be_bytes_asis_correct. Qed.
+Print Assumptions C07_from_be_bytes_asis.
+
+Theorem C07_from_signed_be_bytes_asis : forall w bs, 0 < w -> w mod 8 = 0 -> bytes_ok bs ->
+  from_signed_be_bytes_asis w bs = be_signed_value bs.
+Proof. exact from_signed_be_bytes_asis_correct. Qed.
+Print Assumptions C07_from_signed_be_bytes_asis.
+
+Theorem C07_be_bytes_roundtrip_asis : forall w v, 0 < w -> w mod 8 = 0 ->
+  from_signed_be_bytes_asis w (to_signed_be_bytes_asis w v) = v.
+Proof. exact be_bytes_roundtrip_asis. Qed.
+Print Assumptions C07_be_bytes_roundtrip_asis.
+
+(** PreparedDword::new at word level (shl_dword, three div_rem_2by1 by the normalised range_per_word, the shift of the
+    quotient inside a double word): every division meets its precondition, the shift loses no bit (the informal
+    comment in the source, proved), and the digits are those of the value-level model - every even word size,
+    every radix with 2*r*r <= 2^w (2..36 for 16/32/64-bit words) *)
+Theorem C07_dword_words : forall w, 0 < w -> forall r x, w mod 2 = 0 -> 2 <= r -> 2 * r * r <= Words.B w ->
+  Words.B w <= x < Words.B w * Words.B w -> prepared_dword_words w r x = Ok (prepared_dword w r x).
+Proof. exact prepared_dword_words_correct. Qed.
+Print Assumptions C07_dword_words.
